@@ -9,6 +9,7 @@ import (
 
 	"github.com/netflix/rend/common"
 	"github.com/netflix/rend/handlers"
+	"github.com/netflix/rend/handlers/memcached/batched"
 	"github.com/netflix/rend/handlers/memcached/chunked"
 	"github.com/netflix/rend/handlers/memcached/std"
 
@@ -71,10 +72,13 @@ func HandlerSeq(a Args) {
 	must(st.ListenUnix(sock))
 	rng := rand.New(rand.NewSource(a.Seed))
 	kind := "chunked"
-	if a.Mode == "std" {
-		kind = "std"
+	if a.Mode == "std" || a.Mode == "batched" {
+		kind = a.Mode
 	}
 	mk := func() handlers.Handler {
+		if kind == "batched" {
+			return batched.NewHandler(sock, batched.Opts{BatchSize: uint32(1 + a.Seed%3), BatchDelayMicros: 50})
+		}
 		c, err := net.Dial("unix", sock)
 		must(err)
 		if kind == "std" {
@@ -129,7 +133,7 @@ func HandlerSeq(a Args) {
 		project := func() []interface{} {
 			t := st.LiveSnapshot()
 			out := stack.MMap{}
-			if kind == "std" {
+			if kind != "chunked" {
 				for _, k := range keys {
 					if e, ok := t[string(w.Key(k))]; ok {
 						out[k] = stack.MEntry{V: w.ProjectOrCorrupt(e.Data), F: w.FlagsBack(e.Flags), E: w.DeadlineUnits(e.Exp)}
@@ -200,7 +204,40 @@ func HandlerSeq(a Args) {
 				}
 				return []interface{}{"hit", w.ProjectOrCorrupt(data), w.FlagsBack(flags)}
 			}
-			switch op := rng.Intn(14); op {
+			nops := 14
+			if kind != "chunked" {
+				nops = 16 // the chunked handler does not implement gete
+			}
+			switch op := rng.Intn(nops); op {
+			case 14, 15:
+				c = MCmd{Op: "gete", K: k}
+				rc, ec := h.GetE(common.GetRequest{Keys: [][]byte{key}, Opaques: []uint32{7}, Quiet: []bool{false}})
+				for rc != nil || ec != nil {
+					select {
+					case r, ok := <-rc:
+						if !ok {
+							rc = nil
+						} else if r.Miss {
+							res = []interface{}{"miss"}
+						} else {
+							// remaining lifetime -> deadline in units (no clock ticks in this driver: now = 0)
+							e := absx.Inf
+							if r.Exptime != 0 {
+								e = w.DeadlineUnits(w.Base + int64(r.Exptime))
+								if int64(r.Exptime) > 30*24*3600 {
+									e = w.DeadlineUnits(int64(r.Exptime))
+								}
+							}
+							res = []interface{}{"hit", w.ProjectOrCorrupt(r.Data), w.FlagsBack(r.Flags), e}
+						}
+					case e, ok := <-ec:
+						if !ok {
+							ec = nil
+						} else {
+							res = handlerRes(e)
+						}
+					}
+				}
 			case 0, 1, 2:
 				c = MCmd{Op: "set", K: k, V: blk(), F: rng.Intn(8), T: ttl()}
 				res = handlerRes(h.Set(common.SetRequest{Key: key, Data: w.Value(c.V), Flags: w.Flags(c.F), Exptime: w.TTL(c.T)}))
